@@ -246,9 +246,9 @@ theorem gso_Q_belongs (p : Problem K) (hU : Unambiguous p) (y g : Fin p.n → K)
     have hmem := colAt_mem hkl
     exact sorth_ker p hU (colAt (runOf p).cols k).bot (F.colsAug _ hmem).lbot
       (fun z hz q hq => F.colsSOrth _ hmem z hz q hq) g hg
-  have : ∑ i ∈ p.S, ((gsoC p * (gsoC p)ᵀ) *ᵥ y) i * g i
-      = ∑ k, ((gsoC p)ᵀ *ᵥ y) k * ∑ i ∈ p.S, gsoC p i k * g i := by
-    simp only [← mulVec_mulVec]
+  rw [← mulVec_mulVec]
+  generalize (gsoC p)ᵀ *ᵥ y = w
+  have : ∑ i ∈ p.S, (gsoC p *ᵥ w) i * g i = ∑ k, w k * ∑ i ∈ p.S, gsoC p i k * g i := by
     simp only [mulVec, dotProduct, sum_mul, mul_sum]
     rw [sum_comm]
     refine sum_congr rfl fun k _ => sum_congr rfl fun i _ => by ring
